@@ -281,3 +281,14 @@ package gorm
 //@   tags C14
 //@   requires held == 0
 //@   ensures mutex-free-on-return: held == 0
+
+//@ # ---------- C17: callback ordering helpers (K1) ----------
+//@ func getRIndex
+//@   tags C17 safety
+//@   modifies nothing
+//@   loop 1 invariant bounds: -1 <= i && i < len(strs)
+//@   loop 1 invariant none-to-the-right: forall(k, i + 1, len(strs), strs[k] != str)
+//@   ensures in-range: result >= -1 && result < len(strs)
+//@   ensures found-is-match: result >= 0 ==> strs[result] == str
+//@   ensures is-last-match: forall(k, result + 1, len(strs), strs[k] != str)
+//@   ensures minus-one-means-absent: result == -1 ==> forall(k, 0, len(strs), strs[k] != str)
